@@ -8,7 +8,7 @@ import "github.com/free5gc/ike/verifrt"
 func InstrumentedBuild() bool { return true }
 
 func SetAccessHook(f func(id int, write bool)) { verifrt.AccessHook = f }
-func SetMapOrderHook(f func(n int) []int)       { verifrt.MapOrderHook = f }
+func SetMapOrderHook(f func(n int) []int)      { verifrt.MapOrderHook = f }
 func SetSchedHooks(point func(label string), block func(label string, waiting func() bool)) {
 	verifrt.PointHook, verifrt.BlockHook = point, block
 }
